@@ -223,11 +223,18 @@ func SetBroadcastHash(h interface{}, r int, bv []byte) {
 func ChanClosed(h interface {
 	Listen() <-chan *protocol.Message
 }) bool {
-	select {
-	case _, ok := <-h.Listen():
-		return !ok
-	default:
-		return false
+	// a closed channel still hands out what was buffered before the close: read on until it is
+	// empty (open) or reports the close
+	ch := h.Listen()
+	for {
+		select {
+		case _, ok := <-ch:
+			if !ok {
+				return true
+			}
+		default:
+			return false
+		}
 	}
 }
 
